@@ -1,3 +1,4 @@
+from common import guarded
 """C02  merge is equivalent to having seen the concatenated data (moment family).  Engine RS + VL."""
 import terms as tm
 from terms import T, UINT, REAL, real
@@ -33,14 +34,14 @@ def run(tier, seed):
         moments_merge(pr, N)
     obs = pr.obs
     import envelope
-    obs += envelope.guard_moments("C02", "Kurtosis", ["mean", "population_variance", "sample_variance", "skewness", "kurtosis"],
-                                  "<Kurtosis as Merge>::merge (two-chunk merges at several cuts, left fold of singletons)", with_merge=True)
-    obs += envelope.guard_moments("C02", "M6", ["mean", "sample_variance"] + [["central_moment", p] for p in range(2, 7)],
-                                  "<define_moments!(_, 6) as Merge>::merge", with_merge=True)
-    obs += vl.run_lemmas("C02", ["merge_tree", "concat", "tree_equals", "lemma_fold"])
+    obs += guarded("C02.engine.envelope.guard_moments@L36", lambda: envelope.guard_moments("C02", "Kurtosis", ["mean", "population_variance", "sample_variance", "skewness", "kurtosis"],
+                                  "<Kurtosis as Merge>::merge (two-chunk merges at several cuts, left fold of singletons)", with_merge=True))
+    obs += guarded("C02.engine.envelope.guard_moments@L38", lambda: envelope.guard_moments("C02", "M6", ["mean", "sample_variance"] + [["central_moment", p] for p in range(2, 7)],
+                                  "<define_moments!(_, 6) as Merge>::merge", with_merge=True))
+    obs += guarded("C02.engine.vl.run_lemmas@L40", lambda: vl.run_lemmas("C02", ["merge_tree", "concat", "tree_equals", "lemma_fold"]))
     # the binomial-coefficient iterator shared by add and merge of every order: extracted and verified by Verus for EVERY n
     import verus_units
-    obs += verus_units.iterbinomial_obligations("C02")
+    obs += guarded("C02.engine.verus_units.iterbinomial_obligations@L43", lambda: verus_units.iterbinomial_obligations("C02"))
     meta = {
         "level": "proof",
         "checker_cmd": "./check C02 (rsx -> RS executor -> sympy normal form / z3 QF_NRA; verus history.rs)",
